@@ -227,6 +227,7 @@ def register():
     F.LOOPS[('ComposerBinary._compose_numeric_array', 0)] = loop_compose_numeric_array()
     F.LOOPS[('ParserBinary._parse_numeric_array', 0)] = loop_parse_numeric_array()
     register_arrays()
+    register_mpint()
 
 
 # ---------------------------------------------------------------------------------------------------------------
@@ -327,3 +328,37 @@ def loop_parse_parsable_derived_array():
 def register_arrays():
     I.CONTRACTS[ParserBinary._parse_parsable_derived_array] = spec_parse_parsable_derived_array
     F.LOOPS[('ParserBinary._parse_parsable_derived_array', 0)] = loop_parse_parsable_derived_array()
+
+
+# ---------------------------------------------------------------------------------------------------------------
+# ParserBinary._parse_mpint(self, mpint_length, mpint_offset, negative)          (helper contract, value left open)
+#   requires mpint_length >= 0
+#   available = bytes after position _parsed_length + mpint_offset
+#   mpint_length > available  ->  NotEnoughData(mpint_length - available), parser state untouched
+#   else                      ->  returns an integer, parser state untouched
+from pyvc import vc as _vc            # noqa: E402
+
+
+def spec_parse_mpint(self, mpint_length, mpint_offset, negative):
+    P = E.cur()
+    L = as_int(mpint_length)
+    off = as_int(mpint_offset)
+    if not P.entails(z3.And(L >= 0, off >= 0)):
+        raise I.Decline()
+    p = ops.as_seq(self.f['_parsable'])
+    pl = as_int(self.f['_parsed_length'])
+    avail = V.simp(z3.If(pl + off > p.n, z3.IntVal(0), p.n - pl - off))
+    if P.branch(L > avail):
+        raise E.PyRaise(I.construct(NotEnoughData, [], dict(bytes_needed=wrap_int(L - avail))))
+    ops.truth(negative)          # the body branches on it; no exception either way
+    return SInt(V.fresh_int('mpint'))
+
+
+def spec_parse_mpint_for_refinement(self, mpint_length, mpint_offset, negative):
+    r = spec_parse_mpint(self, mpint_length, mpint_offset, negative)
+    return _vc.AnyInt()
+
+
+def register_mpint():
+    I.CONTRACTS[ParserBinary._parse_mpint] = spec_parse_mpint
+    F.LOOPS[('ParserBinary._parse_mpint', 0)] = loops.HavocLoop(['value'])
